@@ -158,7 +158,8 @@ SRC_TIE = {
             'Field': ['_get_field_length', '_iso8583_to_field_frame', '_string_to_pytype'],
             'Loop': ['_iso8583_to_dict_loop']},
     'C12': {'Pds': ['_pds_to_dict', '_icc_to_dict', '_pds_to_de']},
-    'C13': {'Pin': ['Iso0PinBlock.to_bytes', 'Iso0PinBlock.from_bytes', 'Iso4PinBlock.to_bytes', 'Iso4PinBlock.from_bytes']},
+    'C13': {'Pin': ['Iso0PinBlock.to_bytes', 'Iso0PinBlock.from_bytes', 'Iso4PinBlock.to_bytes', 'Iso4PinBlock.from_bytes'],
+            'Keys': ['Tdes_encrypt', 'Tdes_decrypt', 'Aes_encrypt', 'Aes_decrypt']},
     'C14': {'Misc': ['_get_tsp', '_pan_prefix'],
             'Pin': ['calculate_pvv_decimalise', 'get_zone_master_key_combine'],
             'Keys': ['calculate_kcv', 'encrypt_key', 'get_zone_master_key', 'get_enc_zone_master_key', 'calculate_pvv',
